@@ -111,6 +111,8 @@ structure FnDump where
   freeVars : List Nat
   /-- `Function.Locals` (instruction ids; `none` = an Alloc that is in no block of the function) -/
   locals : List (Option Nat)
+  /-- built with `ir.NaiveForm` (no lifting) -/
+  naive : Bool
 deriving Repr, Inhabited
 
 namespace FnDump
@@ -173,6 +175,13 @@ def squash [BEq α] (l : List α) : List α := squashAux l []
 
 end Sorting
 
+/-- adjacent elements strictly increase -/
+def strictAsc : List Nat → Bool
+  | a :: b :: r => decide (a < b) && strictAsc (b :: r)
+  | _ => true
+
+def natLe (a b : Nat) : Bool := decide (a ≤ b)
+
 def pairLe (x y : Nat × Nat) : Bool := x.1 < y.1 || (x.1 == y.1 && x.2 ≤ y.2)
 
 /-- the set of (pairs as sorted duplicate-free list, reversed) -/
@@ -198,10 +207,6 @@ def closedOK (G : Graph) (d : Nat) (S : Array Bool) : Bool :=
   (d == 0 || S.getD 0 false) &&
   (List.range G.size).all fun u =>
     !S.getD u false || (G.succs u).all fun w => w == d || S.getD w false
-
-/-- `d` dominates `v` according to the table of re-checked sets. -/
-def domB (sets : Array (Array Bool)) (d v : Nat) : Bool :=
-  d == v || (decide (d < sets.size) && !(sets.getD d #[]).getD v false)
 
 /-! ### Lookups -/
 
@@ -282,6 +287,9 @@ def fBool : Nat := 1
 def fInteger : Nat := 2
 def fString : Nat := 32
 def fHasTParam : Nat := 32768
+def fFloat : Nat := 8
+def fComplex : Nat := 16
+def fUnsafePtr : Nat := 4096
 
 namespace Ctx
 variable (c : Ctx)
@@ -298,7 +306,50 @@ def isIface (t : Option Nat) : Prop := c.ctor (c.under t) = some .iface
 def isPair (t e : Option Nat) : Prop :=
   c.ctor t = some .tuple ∧ (c.kids t).length = 2 ∧ same (c.kid t 0) e ∧ c.isBool (c.kid t 1)
 
+/-- real numeric (integer or floating point) basic type, possibly named -/
+def isReal (t : Option Nat) : Prop :=
+  c.ctor (c.under t) = some .basic ∧ (c.flag (c.under t) fInteger = true ∨ c.flag (c.under t) fFloat = true)
+def isComplex (t : Option Nat) : Prop := c.ctor (c.under t) = some .basic ∧ c.flag (c.under t) fComplex = true
+def isUnsafePtr (t : Option Nat) : Prop := c.ctor (c.under t) = some .basic ∧ c.flag (c.under t) fUnsafePtr = true
+/-- `uintptr` (types.Uintptr = 12) -/
+def isUintptr (t : Option Nat) : Prop := c.ctor (c.under t) = some .basic ∧ c.len (c.under t) = some 12
+/-- slice whose element's underlying type is byte (types.Uint8 = 8) or rune (types.Int32 = 5) -/
+def isBytesOrRunes (t : Option Nat) : Prop :=
+  c.ctor (c.under t) = some .slice ∧ c.ctor (c.under (c.kid (c.under t) 0)) = some .basic ∧
+    (c.len (c.under (c.kid (c.under t) 0)) = some 8 ∨ c.len (c.under (c.kid (c.under t) 0)) = some 5)
+
+/-- constructors whose identity is decided by their components (not named / basic / interface /
+type parameter: for those identical = same class) -/
+def structural : Ctor → Bool
+  | .pointer | .slice | .array | .map | .chan | .strct | .tuple | .signature => true
+  | _ => false
+
+/-- identical up to what `types.IdenticalIgnoreTags` ignores: the same class, or the same
+structural constructor and length with pairwise equivalent components (struct tags are not part
+of the table, field names are not compared; out of fuel: same constructor).  An approximation
+from above of `IdenticalIgnoreTags` that is exact on classes. -/
+def eqvN : Nat → Nat → Nat → Bool
+  | 0, a, b => a == b || (c.types[a]?).map (·.ctor) == (c.types[b]?).map (·.ctor)
+  | f + 1, a, b =>
+    a == b ||
+      match c.types[a]?, c.types[b]? with
+      | some ea, some eb =>
+        ea.ctor == eb.ctor && structural ea.ctor && ea.len == eb.len &&
+          ea.kids.length == eb.kids.length && (ea.kids.zip eb.kids).all fun p => eqvN f p.1 p.2
+      | _, _ => false
+
+def eqv (a b : Option Nat) : Prop :=
+  match a, b with
+  | some a, some b => c.eqvN 4 a b = true
+  | _, _ => False
+
 instance (a b : Option Nat) : Decidable (same a b) := by unfold same; infer_instance
+instance (t : Option Nat) : Decidable (c.isReal t) := by unfold isReal; infer_instance
+instance (t : Option Nat) : Decidable (c.isComplex t) := by unfold isComplex; infer_instance
+instance (t : Option Nat) : Decidable (c.isUnsafePtr t) := by unfold isUnsafePtr; infer_instance
+instance (t : Option Nat) : Decidable (c.isUintptr t) := by unfold isUintptr; infer_instance
+instance (t : Option Nat) : Decidable (c.isBytesOrRunes t) := by unfold isBytesOrRunes; infer_instance
+instance (a b : Option Nat) : Decidable (c.eqv a b) := by unfold eqv; split <;> infer_instance
 instance (t : Option Nat) : Decidable (c.isBool t) := by unfold isBool; infer_instance
 instance (t : Option Nat) : Decidable (c.isInt t) := by unfold isInt; infer_instance
 instance (t : Option Nat) : Decidable (c.isStr t) := by unfold isStr; infer_instance
@@ -315,7 +366,7 @@ open Ctx in
 /-- **The typing table.**  One row per instruction kind: the relation between operand
 types, result type and exported fields that the documentation of the instruction in
 go/ir/ssa.go states (and the emit helpers of go/ir/emit.go establish).  `t` = result
-type, `x k` = type of operand `k`.  Kinds with `True` have no typing rule. -/
+type, `x k` = type of operand `k`. -/
 def TypeRule (c : Ctx) (i : Instr) : Prop :=
   let t := i.ty
   let x := fun k => c.oty (i.op k)
@@ -350,11 +401,32 @@ def TypeRule (c : Ctx) (i : Instr) : Prop :=
       (¬ c.isIface (x 0) ∨ c.ctor (x 0) = some .typeparam)
   | .ChangeInterface => c.isIface t ∧ c.isIface (x 0)
   | .ChangeType =>
+    -- "a value-preserving type change": named type <-> its underlying type / another named
+    -- type of the same underlying type (identical up to struct tags: `eqv`); (possibly named)
+    -- pointers to identical base types; a bidirectional channel to a directed one (or a name
+    -- change); a type and its instance (type parameters involved)
     (x 0).isSome = true ∧ t.isSome = true ∧ x 0 ≠ t ∧
-      (c.ctor (c.under t) = c.ctor (c.under (x 0)) ∨ c.hasTP t ∨ c.hasTP (x 0))
+      (c.hasTP t ∨ c.hasTP (x 0) ∨ c.eqv (c.under t) (c.under (x 0)) ∨
+       (c.ctor (c.under t) = some .pointer ∧ c.ctor (c.under (x 0)) = some .pointer ∧
+          c.eqv (c.under (c.kid (c.under t) 0)) (c.under (c.kid (c.under (x 0)) 0))) ∨
+       (c.ctor (c.under t) = some .chan ∧ c.ctor (c.under (x 0)) = some .chan ∧
+          c.eqv (c.kid (c.under t) 0) (c.kid (c.under (x 0)) 0) ∧
+          (c.len (c.under (x 0)) = some 0 ∨ c.len (c.under (x 0)) = c.len (c.under t))))
   | .Convert =>
+    -- "One or both of those types is basic (but possibly named). … Conversions are permitted:
+    -- between real numeric types; between complex numeric types; between string and []byte or
+    -- []rune; between pointers and unsafe.Pointer; between unsafe.Pointer and uintptr; from
+    -- (Unicode) integer to (UTF-8) string."  A value-preserving change is a ChangeType, never
+    -- a Convert.
     (x 0).isSome = true ∧ t.isSome = true ∧
-      (c.ctor (c.under t) = some .basic ∨ c.ctor (c.under (x 0)) = some .basic ∨ c.hasTP t ∨ c.hasTP (x 0))
+      (c.hasTP t ∨ c.hasTP (x 0) ∨
+       (c.under t ≠ c.under (x 0) ∧
+        ((c.isReal (x 0) ∧ c.isReal t) ∨ (c.isComplex (x 0) ∧ c.isComplex t) ∨
+         (c.isStr (x 0) ∧ c.isBytesOrRunes t) ∨ (c.isBytesOrRunes (x 0) ∧ c.isStr t) ∨
+         (c.ctor (c.under (x 0)) = some .pointer ∧ c.isUnsafePtr t) ∨
+         (c.isUnsafePtr (x 0) ∧ c.ctor (c.under t) = some .pointer) ∨
+         (c.isUnsafePtr (x 0) ∧ c.isUintptr t) ∨ (c.isUintptr (x 0) ∧ c.isUnsafePtr t) ∨
+         (c.isInt (x 0) ∧ c.isStr t))))
   | .MultiConvert => c.ctor t = some .typeparam ∨ c.ctor (x 0) = some .typeparam
   | .TypeAssert =>
     c.isIface (x 0) ∧ i.b.isSome = true ∧ (if i.a = some 1 then c.isPair t i.b else t = i.b)
@@ -428,25 +500,45 @@ def TypeRule (c : Ctx) (i : Instr) : Prop :=
     c.hasTP t ∨ c.hasTP (x 0) ∨
       (c.cctor (x 0) = some .slice ∧ c.cctor t = some .array ∧ same (c.ckid (x 0) 0) (c.ckid t 0))
   | .Select => c.ctor t = some .tuple ∧ 2 ≤ (c.kids t).length
-  | .Jump | .Unreachable | .RunDefers | .DebugRef | .BlankStore | .CompositeValue
-  | .ConstantSwitch => True
+  | .ConstantSwitch =>
+    -- "Constant branch conditions. A nil Value denotes the (implicit or explicit) default
+    -- branch."  Operands = Tag :: Conds, a = len(Conds) (one successor per cond: `termArity`).
+    -- A cond is a constant of the tag's type; an interface-typed tag is compared with
+    -- constants of any type (`switch err { case nil: … case syscall.EINTR: … }`).
+    (x 0).isSome = true ∧ i.a = some (i.ops.length - 1) ∧
+      (∀ o ∈ i.ops.drop 1, o = none ∨
+        (o.bind c.vkind = some .const ∧ (same (c.oty o) (x 0) ∨ c.isIface (x 0) ∨ c.hasTP (x 0)))) ∧
+      (i.ops.drop 1).count none ≤ 1
+  | .CompositeValue =>
+    -- a struct value lists one operand per field, an array value one per element, each of
+    -- exactly the field / element type (builder.go compLit, lvalue.go compositeElement.store)
+    i.a = some i.ops.length ∧ (∀ o ∈ i.ops, o ≠ none) ∧
+      ((c.cctor t = some .strct ∧ i.ops.map c.oty = (c.kids (c.core t)).map some) ∨
+       (c.cctor t = some .array ∧ c.len (c.core t) = some i.ops.length ∧
+          ∀ o ∈ i.ops, same (c.oty o) (c.ckid t 0)))
+  | .BlankStore => (x 0).isSome = true
+  | .DebugRef =>
+    -- "IsAddr: Expr is addressable and X is the address it denotes"
+    (x 0).isSome = true ∧ (i.a = some 1 → c.cctor (x 0) = some .pointer)
+  | .Jump | .Unreachable | .RunDefers => i.ops = []
 
 instance (c : Ctx) (i : Instr) : Decidable (TypeRule c i) := by
   unfold TypeRule
   simp only []
   split <;> first | infer_instance | (split <;> infer_instance)
 
-/-- kinds that have a (non-trivial) row in the typing table -/
+/-- kinds that have a row in the typing table -/
 def typedKinds : List Kind :=
   [.Alloc, .Phi, .Load, .Store, .BinOp, .UnOp, .If, .Return, .MakeInterface, .ChangeInterface,
    .ChangeType, .Convert, .MultiConvert, .TypeAssert, .Extract, .Field, .FieldAddr, .IndexAddr,
    .Index, .StringLookup, .MapLookup, .MapUpdate, .MakeMap, .MakeChan, .MakeSlice, .Slice, .Send,
    .Recv, .Panic, .Range, .Next, .Call, .Go, .Defer, .MakeClosure, .TypeSwitch,
-   .SliceToArrayPointer, .SliceToArray, .Select]
+   .SliceToArrayPointer, .SliceToArray, .Select, .ConstantSwitch, .CompositeValue, .BlankStore,
+   .DebugRef, .Jump, .Unreachable, .RunDefers]
 
-/-- kinds deliberately without a row (no operand/result typing is documented for them) -/
-def untypedKinds : List Kind :=
-  [.Jump, .Unreachable, .RunDefers, .DebugRef, .BlankStore, .CompositeValue, .ConstantSwitch]
+/-- kinds deliberately without a row (none any more: the three operand-less kinds carry the
+row "no operands") -/
+def untypedKinds : List Kind := []
 
 /-- every instruction kind of the model (`allKinds_complete` in Theorems.lean) -/
 def allKinds : List Kind := typedKinds ++ untypedKinds
